@@ -1817,6 +1817,10 @@ func (dsc *dataStoreCommand) lremove(keyName string, element string, count int) 
 			item = next
 		}
 	} else {
+		if count == math.MinInt {
+			// -count is not representable; one less still means "all of them"
+			count++
+		}
 		count = -count
 		for item := list.tail; item != nil && count > removed; {
 			next := item.prev
